@@ -19,6 +19,11 @@ type Atom struct {
 	V    ssa.Value // the un-negated condition value
 	// For equality tests against a constant: the other operand and the constant.
 	EqLHS, EqConst string
+	// Via is non-empty for a fact imported from a callee's summary: the test
+	// `helper(x) == nil` (or a boolean helper) establishes the facts that hold
+	// at every return of the helper with that outcome, rewritten in terms of
+	// the caller's arguments. V then belongs to the callee.
+	Via string
 }
 
 func (a Atom) String() string {
@@ -216,6 +221,14 @@ func Q(s string) string { return regexp.QuoteMeta(s) }
 type atomKey struct {
 	v   ssa.Value
 	pos bool
+	x   string // rendered text for facts imported from a callee (their V is the callee's value, shared by every call site)
+}
+
+func keyOf(a Atom) atomKey {
+	if a.Via != "" {
+		return atomKey{a.V, a.Pos, a.Expr}
+	}
+	return atomKey{a.V, a.Pos, ""}
 }
 
 // MustAtoms computes, for every block of fn, the set of atoms that hold on
@@ -272,7 +285,13 @@ func MustAtoms(fn *ssa.Function) map[*ssa.BasicBlock][]Atom {
 						continue
 					}
 					if a, ok := edgeAtom(p, si); ok {
-						cur[atomKey{a.V, a.Pos}] = a
+						cur[keyOf(a)] = a
+						for _, ia := range impliedAtoms(a.V, a.Pos, 0) {
+							cur[keyOf(ia)] = ia
+						}
+						for _, ia := range summaryAtoms(a) {
+							cur[keyOf(ia)] = ia
+						}
 					}
 				}
 				if first {
@@ -313,4 +332,295 @@ func MustAtoms(fn *ssa.Function) map[*ssa.BasicBlock][]Atom {
 		out[b] = as
 	}
 	return out
+}
+
+var impliedCache = map[atomKey][]Atom{}
+
+// impliedAtoms returns the atoms that necessarily hold when the boolean value
+// cond evaluates to pol, beyond the atom on cond itself. go/ssa lowers `a && b`
+// and `a || b` in value position (a hoisted `ok := a && b`, a condition passed
+// through a local) to a φ of constants and the last operand; branching on that
+// φ must establish the same facts as branching on the operands directly. The
+// facts are computed as the intersection, over every path from the φ block's
+// immediate dominator on which the φ takes a value compatible with pol, of the
+// branch atoms of that path (plus the atom of the non-constant value taken).
+func impliedAtoms(cond ssa.Value, pol bool, depth int) []Atom {
+	if depth > 4 {
+		return nil
+	}
+	if depth == 0 {
+		k := atomKey{cond, pol, ""}
+		if r, ok := impliedCache[k]; ok {
+			return r
+		}
+		r := impliedAtoms(cond, pol, 1)
+		impliedCache[k] = r
+		return r
+	}
+	for {
+		if u, ok := cond.(*ssa.UnOp); ok && u.Op == token.NOT {
+			cond, pol = u.X, !pol
+			continue
+		}
+		break
+	}
+	phi, ok := cond.(*ssa.Phi)
+	if !ok {
+		return nil
+	}
+	blk := phi.Block()
+	dom := blk.Idom()
+	if dom == nil {
+		return nil
+	}
+	for _, p := range blk.Preds {
+		if blk.Dominates(p) {
+			return nil // loop-carried flag
+		}
+	}
+	paths, complete := EnumPaths(dom, func(b *ssa.BasicBlock) bool { return b == blk }, 512)
+	if !complete {
+		return nil
+	}
+	var acc map[atomKey]Atom
+	first := true
+	for _, p := range paths {
+		if p.Last() != blk {
+			continue
+		}
+		val := p.PhiOn(phi)
+		if val == nil {
+			return nil
+		}
+		val = p.Resolve(val)
+		cur := map[atomKey]Atom{}
+		if c, isC := ConstBool(val); isC {
+			if c != pol {
+				continue // on this path the φ has the other value
+			}
+		} else {
+			a := MkAtom(val, pol)
+			cur[keyOf(a)] = a
+			for _, ia := range impliedAtoms(val, pol, depth+1) {
+				cur[keyOf(ia)] = ia
+			}
+		}
+		for _, a := range p.Atoms {
+			cur[keyOf(a)] = a
+			for _, ia := range impliedAtoms(a.V, a.Pos, depth+1) {
+				cur[keyOf(ia)] = ia
+			}
+		}
+		if first {
+			acc, first = cur, false
+		} else {
+			for k := range acc {
+				if _, ok := cur[k]; !ok {
+					delete(acc, k)
+				}
+			}
+		}
+	}
+	var out []Atom
+	for _, a := range acc {
+		out = append(out, a)
+	}
+	return out
+}
+
+// ImpliedAtoms exposes impliedAtoms: the facts established by cond == pol
+// beyond the atom on cond itself.
+func ImpliedAtoms(cond ssa.Value, pol bool) []Atom { return impliedAtoms(cond, pol, 0) }
+
+// WithoutImplied removes from as every atom that is implied by another atom of
+// as (so that "no further condition" rules count independent conditions only).
+func WithoutImplied(as []Atom) []Atom {
+	implied := map[atomKey]bool{}
+	for _, a := range as {
+		for _, ia := range impliedAtoms(a.V, a.Pos, 0) {
+			implied[keyOf(ia)] = true
+		}
+	}
+	var out []Atom
+	for _, a := range as {
+		if !implied[keyOf(a)] && a.Via == "" {
+			out = append(out, a)
+		}
+	}
+	return out
+}
+
+var summaryCache = map[atomKey][]Atom{}
+var paramToken = regexp.MustCompile(`\bp(\d+)\b`)
+
+// summaryAtoms: one-level guard summaries. If atom a says that a call to a
+// module function with a body returned a nil error (a = `call#k == nil`, true)
+// or a given boolean, the facts that hold at EVERY return of the callee which
+// can produce that outcome also hold in the caller, with the callee's
+// parameters replaced by the call's arguments. This makes a guard that was
+// extracted into a small helper (`if err := e.ensureWritable(); err != nil`)
+// equivalent to the inline test. Facts are matched by their rendered text; the
+// callee must not be recursive and its conditions must be over its parameters
+// (anything else is still imported but will simply not match a caller-side rule).
+func summaryAtoms(a Atom) []Atom {
+	k := keyOf(a)
+	if r, ok := summaryCache[k]; ok {
+		return r
+	}
+	var out []Atom
+	defer func() { summaryCache[k] = out }()
+	var call *ssa.Call
+	idx := 0
+	wantNil, wantBool := false, false
+	switch v := a.V.(type) {
+	case *ssa.Call:
+		call, wantBool = v, true
+	case *ssa.BinOp:
+		if v.Op != token.EQL && v.Op != token.NEQ {
+			return nil
+		}
+		x, y := v.X, v.Y
+		if IsNilConst(x) {
+			x, y = y, x
+		}
+		if !IsNilConst(y) {
+			return nil
+		}
+		switch e := x.(type) {
+		case *ssa.Call:
+			call = e
+		case *ssa.Extract:
+			c, ok := e.Tuple.(*ssa.Call)
+			if !ok {
+				return nil
+			}
+			call, idx = c, e.Index
+		default:
+			return nil
+		}
+		wantNil = true
+	default:
+		return nil
+	}
+	callee := call.Call.StaticCallee()
+	if callee == nil || callee.Blocks == nil || !IsModuleFunc(callee) || callee == call.Parent() {
+		return nil
+	}
+	res := callee.Signature.Results()
+	if idx >= res.Len() {
+		return nil
+	}
+	if wantBool && TypeShort(res.At(idx).Type()) != "bool" {
+		return nil
+	}
+	if wantBool && res.Len() != 1 {
+		return nil
+	}
+	var acc map[string]Atom
+	first := true
+	for _, r := range Returns(callee) {
+		rv := RetResults(r)
+		if idx >= len(rv) {
+			return nil
+		}
+		v := rv[idx]
+		if wantNil {
+			if a.Pos && provablyNonNil(v) {
+				continue // this return cannot produce nil
+			}
+			if !a.Pos && IsNilConst(v) {
+				continue // this return cannot produce a non-nil error
+			}
+		} else {
+			if c, isC := ConstBool(v); isC && c != a.Pos {
+				continue
+			}
+		}
+		cur := map[string]Atom{}
+		for _, g := range GuardsOfBlock(r.Block()) {
+			if g.Via != "" {
+				continue
+			}
+			cur[g.String()] = g
+		}
+		if wantBool {
+			if _, isC := ConstBool(v); !isC {
+				g := MkAtom(v, a.Pos)
+				cur[g.String()] = g
+			}
+		}
+		if first {
+			acc, first = cur, false
+		} else {
+			for s := range acc {
+				if _, ok := cur[s]; !ok {
+					delete(acc, s)
+				}
+			}
+		}
+	}
+	args := call.Call.Args
+	subst := func(s string) string {
+		return paramToken.ReplaceAllStringFunc(s, func(m string) string {
+			var n int
+			for _, ch := range m[1:] {
+				n = n*10 + int(ch-'0')
+			}
+			if n < len(args) {
+				return Render(args[n])
+			}
+			return m
+		})
+	}
+	for _, g := range acc {
+		out = append(out, Atom{Expr: subst(g.Expr), Pos: g.Pos, V: g.V, EqLHS: subst(g.EqLHS), EqConst: g.EqConst, Via: FuncName(callee)})
+	}
+	return out
+}
+
+// provablyNonNil: an error value that is the result of errors.New / fmt.Errorf
+// or a package-level sentinel.
+func provablyNonNil(v ssa.Value) bool {
+	switch x := Unwrap(v).(type) {
+	case *ssa.Call:
+		n := CalleeName(x)
+		return n == "errors.New" || n == "fmt.Errorf"
+	case *ssa.UnOp:
+		if g, ok := x.X.(*ssa.Global); ok {
+			return strings.HasPrefix(strings.ToLower(g.Name()), "err")
+		}
+	}
+	return false
+}
+
+// PureHelper reports whether fn only computes a verdict: no stores except to
+// its own locals, no map updates, sends, goroutines or defers, and calls only
+// to error constructors and builtins. A call to such a helper placed in front
+// of a guard is part of the guard, not an operation the guard must protect.
+func PureHelper(fn *ssa.Function) bool {
+	if fn == nil || fn.Blocks == nil {
+		return false
+	}
+	pure := true
+	EachInstr(fn, func(i ssa.Instruction) {
+		switch x := i.(type) {
+		case *ssa.Store:
+			if _, local := x.Addr.(*ssa.Alloc); !local {
+				if ia, ok := x.Addr.(*ssa.IndexAddr); ok {
+					if _, l2 := ia.X.(*ssa.Alloc); l2 {
+						return
+					}
+				}
+				pure = false
+			}
+		case *ssa.MapUpdate, *ssa.Send, *ssa.Go, *ssa.Defer:
+			pure = false
+		case *ssa.Call:
+			n := CalleeName(x)
+			if n != "errors.New" && n != "fmt.Errorf" && !strings.HasPrefix(n, "builtin:") {
+				pure = false
+			}
+		}
+	})
+	return pure
 }
